@@ -520,5 +520,4 @@ LimitedIff ==
 
 (* vacuity guards: expected to be violated                                                            *)
 ReachTwoCircuits == ~(\E r \in Relays : Circuits(r) >= 2)
-ReachWaiterRetry == ~(op.name \in {"respond", "ns", "tick", "cancel"} /\ op.next # {})
 =============================================================================
